@@ -474,7 +474,7 @@ def asan_top(err):
     if not m:
         return None
     frames = re.findall(r"#\d+ 0x[0-9a-f]+ in (\w+)", err)
-    fr = [f for f in frames if not f.startswith("__")][:3]
+    fr = [f for f in frames if not f.startswith("__")][:10]
     return m.group(1), fr
 
 
@@ -746,7 +746,7 @@ def run(ctx):
     nd = outer_dense(ctx, da, dscheds, [])
     t4 = time.time()
     if ctx.thorough:
-        lscheds = [("every:7", False), ("seed:%d:11" % ctx.rng.randrange(1, 1000), False), ("every:23", True)]
+        lscheds = [("every:11", False), ("seed:%d:17" % ctx.rng.randrange(1, 1000), False), ("every:29", True)]
     else:
         lscheds = [("every:%d" % ctx.rng.choice([53, 61, 67]), False)]
     nl = outer_libs(ctx, da, lscheds)
@@ -758,26 +758,6 @@ def run(ctx):
     ctx.assume("the root-registration discipline of C callers (sexp_gc_preserve) is not a theorem: it is explored by the forced-collection schedules only")
     ctx.assume("the mark stack (1024 inline entries, then malloc without a NULL check, gc.c:238) is an unbounded list in the model")
     ctx.trust("harness/embed_c02.c re-implements the body of sexp_gc (mark, weak reset, finalize, sweep) around the dumps; the heap walk it uses is the one of sexp_sweep")
-
-
-def _dense(ctx, da):
-    """thorough only: a collection before every single allocation, small programs without library imports"""
-    work = os.path.join(B.SCRATCH, "tmp_c02_work")
-    tiny = ["(define (f n) (if (= n 0) '() (cons (number->string n) (f (- n 1))))) (write (length (f 300))) (newline)",
-            "(write (call-with-current-continuation (lambda (k) (dynamic-wind (lambda () 1) (lambda () (k (vector 1 2 (expt 3 80)))) (lambda () 2))))) (newline)",
-            "(define v (make-vector 50 'a)) (vector-set! v 3 (list 1 2)) (write (vector->list v)) (newline)"]
-    for i, t in enumerate(tiny):
-        src = os.path.join(work, "dense-%d.scm" % i)
-        open(src, "w").write(t + "\n")
-        rc0, out0, err0 = run_prog(da, src)
-        for s in ["every:1", "every:2", "every:3"]:
-            rc, out, err = run_prog(da, src, s, timeout=1500)
-            ctx.count(1, key=(t, s), nontrivial=True)
-            if rc != rc0 or out != out0:
-                top = asan_top(err)
-                ctx.violation("schedule:dense:%s" % ("/".join(top[1][:2]) if top else "output"), input="%s under %s" % (src, s),
-                              expected="same output as the unforced run", observed=str(top or (rc, out[-200:])),
-                              replay="cd %s && CHIBI_VERIF_GC=%s LD_LIBRARY_PATH=. CHIBI_MODULE_PATH=lib CHIBI_IGNORE_SYSTEM_PATH=1 ./chibi-scheme %s" % (da, s, src))
 
 
 def _r7rs(ctx, da):
